@@ -51,3 +51,19 @@ Theorem collapse_covers_rule_and_source :
   /\ (In 0 collapse_rules_differ /\ In 1 collapse_rules_differ /\ In 2 collapse_rules_differ /\ In 3 collapse_rules_differ)
   /\ nth_error written_parts 0 = Some PRulePre /\ nth_error written_parts 3 = Some PSource.
 Proof. vm_compute. intuition. Qed.
+
+(* the pre-build check reads the pre-build rule hash, the post-build check the post-build one, and they read
+   everything else from the same slots: the model's needs_build / needs_build_post differ in exactly that *)
+Theorem pre_post_differ_in_the_rule_slot_only :
+  In (FRule, 0) read_pre /\ In (FRule, 1) read_post
+  /\ filter (fun fn => negb (field_eqb (fst fn) FRule)) read_pre = filter (fun fn => negb (field_eqb (fst fn) FRule)) read_post.
+Proof. vm_compute. intuition. Qed.
+
+(* buildTarget (build_step.go:164), targets the build can modify: pre-build check, the outputs of the stored
+   metadata are added, post-build check, "Unchanged"; a build adds what it found in the output directories, stores
+   the metadata, moves the outputs and only then writes the record - the order Model/Engine.v follows in
+   build_rule_od and run_od (gotrans fails closed when the source has these statements in another order) *)
+Theorem build_target_order_ok :
+  build_target_order = [SPreCheck; SCouldModify; SLoadMetadata; SAddMetadataOuts; SPostCheck; SUnchanged;
+                        SRunCommand; SAddFoundOuts; SStoreMetadata; SMoveOutputs; SWriteRecord].
+Proof. reflexivity. Qed.
